@@ -276,14 +276,36 @@ func runCheck(o checkOpts) int {
 		fmt.Printf("VIOLATION property=%s replay=%s%s\n", o.id, rf, suffix)
 		fmt.Printf("  failed obligation %s (%s) at %s: %s\n", ob.Name, fl.reason, ob.Pos, ob.Desc)
 	}
-	for _, m := range missing {
-		violations++
-		exit = 1
-		rf := filepath.Join(replayDir, fmt.Sprintf("%s-missing-%s.json", o.id, sanitizeIdent(m)))
-		data, _ := json.MarshalIndent(map[string]interface{}{"property": o.id, "obligation": m, "verdict": "obligation no longer generated: the code it is about has changed shape or disappeared"}, "", " ")
-		os.WriteFile(rf, data, 0o644)
-		fmt.Printf("VIOLATION property=%s replay=%s no-failing-input-found\n", o.id, rf)
-		fmt.Printf("  expected obligation %s is no longer generated\n", m)
+	// obligations of the baseline that are no longer generated: one report per function / lemma
+	if len(missing) > 0 {
+		byOwner := map[string][]string{}
+		for _, m := range missing {
+			owner := m
+			if k := strings.Index(m, "#"); k >= 0 {
+				owner = m[:k]
+			}
+			byOwner[owner] = append(byOwner[owner], m)
+		}
+		var owners []string
+		for k := range byOwner {
+			owners = append(owners, k)
+		}
+		sort.Strings(owners)
+		for _, ow := range owners {
+			violations++
+			exit = 1
+			rf := filepath.Join(replayDir, fmt.Sprintf("%s-missing-%s.json", o.id, sanitizeIdent(ow)))
+			why := "the code these obligations are about changed shape, left the verified subset or disappeared; the obligations that passed on the unchanged tree are no longer discharged"
+			for _, e := range engineErrs {
+				if strings.Contains(e, strings.TrimPrefix(ow, "template.")) || strings.Contains(e, ow) {
+					why += " (" + e + ")"
+				}
+			}
+			data, _ := json.MarshalIndent(map[string]interface{}{"property": o.id, "owner": ow, "missing_obligations": byOwner[ow], "verdict": why}, "", " ")
+			os.WriteFile(rf, data, 0o644)
+			fmt.Printf("VIOLATION property=%s replay=%s no-failing-input-found\n", o.id, rf)
+			fmt.Printf("  %d expected obligations of %s are no longer generated (first: %s)\n", len(byOwner[ow]), ow, byOwner[ow][0])
+		}
 	}
 	for _, se := range scriptErrors {
 		engineErrs = append(engineErrs, "malformed SMT script: "+se)
@@ -381,4 +403,79 @@ func (p *Prog) prepareLemmaAxioms() {
 type lemmaAx struct {
 	text  string
 	langs []string
+}
+
+var unstableKinds = map[string]bool{"index": true, "slice": true, "overflow": true, "nil": true, "convrange": true, "divzero": true, "divsign": true,
+	"fmtrange": true, "typeassert": true, "lock": true, "nilfunc": true, "panic": true, "bounded": true, "cover": true}
+
+// stableName: obligations whose names do not depend on counting expression sites.
+func stableName(ob *Obligation) bool { return !unstableKinds[ob.Kind] }
+
+func writeBaseline() int {
+	p, err := loadProg("/repo", "/verif/spec")
+	if err != nil {
+		fmt.Println("ENGINE-ERROR:", err)
+		return 2
+	}
+	p.prepareLemmaAxioms()
+	out := map[string][]string{}
+	ids := map[string]bool{}
+	for _, c := range p.spec.Contracts {
+		for _, s := range c.Serves {
+			ids[s] = true
+		}
+	}
+	for _, lm := range p.spec.Lemmas {
+		for _, s := range lm.Serves {
+			ids[s] = true
+		}
+	}
+	reports := map[string]*FuncReport{}
+	for id := range ids {
+		var names []string
+		for _, lm := range p.spec.Lemmas {
+			if servesProp(lm.Serves, id) && lm.Finding == "" {
+				names = append(names, "lemma."+lm.Name)
+			}
+		}
+		for k, c := range p.spec.Contracts {
+			if c.Assumed || !servesProp(c.Serves, id) {
+				continue
+			}
+			rep, ok := reports[k]
+			if !ok {
+				rep = p.verifyFunc(k)
+				reports[k] = rep
+			}
+			if rep.Err != "" {
+				fmt.Println("ENGINE-ERROR:", k, rep.Err)
+				return 2
+			}
+			for _, ob := range rep.Obs {
+				if stableName(ob) && ob.FindingID == "" {
+					names = append(names, ob.Name)
+				}
+			}
+		}
+		extra, _, _ := p.extraObligations(checkOpts{id: id, tier: "quick", verifDir: "/verif", repoDir: "/repo"})
+		for _, ob := range extra {
+			if ob.Kind == "lemma" {
+				names = append(names, ob.Name)
+			}
+		}
+		sort.Strings(names)
+		out[id] = names
+	}
+	os.MkdirAll("/verif/baseline", 0o755)
+	data, _ := json.MarshalIndent(out, "", " ")
+	if err := os.WriteFile("/verif/baseline/obligations.json", data, 0o644); err != nil {
+		fmt.Println(err)
+		return 2
+	}
+	n := 0
+	for _, v := range out {
+		n += len(v)
+	}
+	fmt.Printf("baseline: %d properties, %d stable obligation names\n", len(out), n)
+	return 0
 }
